@@ -357,7 +357,7 @@ class Storage(Machine):
         ex = model["_extra"]
         rel = f"mpi{op['i']}.hex"
         argv = ["mpi", "generate", "--output-file", host.path(rel), "--vendor-name", op["vendor"], "--class-name",
-                op["class"], "--address", hex(op["addr"]), "--size", str(op["size"])]
+                op["class"], "--address", self.num(op["addr"], (op["i"], "a")), "--size", self.num(op["size"], (op["i"], "s"))]
         if op["dp"]:
             argv.append("--downgrade-prevention-enabled")
         if op["iu"]:
@@ -448,7 +448,7 @@ class Storage(Machine):
                 argv = ["image", "boot"]
                 for p in inputs:
                     argv += ["--input-file", p]
-                argv += ["--storage-output-directory", host.path(out_dir), "--storage-address", hex(op["addr"])]
+                argv += ["--storage-output-directory", host.path(out_dir), "--storage-address", self.num(op["addr"], (op["i"], "sa"))]
                 if kpath:
                     argv += ["--config-file", kpath]
                 return host.cli(argv, kind="image_boot", faults=fl)
